@@ -3,7 +3,7 @@
 # Applies a seeded change to /repo, runs the named checks (bin/check rebuilds from the working tree), prints one
 # summary line per check, and always restores /repo's working tree.
 set -u
-patch="$1"; shift
+patch="$(readlink -f "$1")"; shift
 tier="${TIER:-quick}"
 if ! git -C /repo diff --quiet; then echo "refusing: /repo has uncommitted changes"; exit 2; fi
 if ! git -C /repo apply --check "$patch" 2>/dev/null; then echo "patch does not apply: $patch"; exit 2; fi
